@@ -107,7 +107,24 @@ async def open_condret(w, tid, nid):
     w.nstack[tid].pop()
 
 
-OPENERS = {"plain": open_plain, "tryexc": open_tryexc, "tryfin": open_tryfin, "condret": open_condret}
+import contextlib
+
+
+@contextlib.asynccontextmanager
+async def service(w, tid, nid):
+    """the open_service() idiom: the nursery lives in a stdlib @asynccontextmanager generator"""
+    async with trio.open_nursery() as n:
+        push(w, tid, nid, n)
+        yield n
+
+
+async def open_acm(w, tid, nid):
+    async with service(w, tid, nid):
+        await interp(w, tid)
+    w.nstack[tid].pop()
+
+
+OPENERS = {"acm": open_acm, "plain": open_plain, "tryexc": open_tryexc, "tryfin": open_tryfin, "condret": open_condret}
 
 
 def check_ground_truth(w, tree):
@@ -132,7 +149,18 @@ def compare(w, st, tree, bad, where):
     if not st.frames:
         bad.append("%s: no frames (stub?)" % where)
         return
-    ctxs = [(f, c) for f in st.frames for c in f.contexts if isinstance(c.obj, trio.Nursery)]
+    # nurseries in nesting order: contexts of the frames in order, descending into the inner stacks of
+    # generator-based managers (a nursery opened inside an @asynccontextmanager belongs to the task all the same)
+    ctxs = []
+
+    def walk(stack):
+        for f in stack.frames:
+            for c in f.contexts:
+                if isinstance(c.obj, trio.Nursery):
+                    ctxs.append((f, c))
+                elif c.inner_stack is not None:
+                    walk(c.inner_stack)
+    walk(st)
     want = tree["nurseries"]
     if [id(c.obj) for _, c in ctxs] != [id(w.nobj[x["id"]]) for x in want]:
         have = []
